@@ -26,6 +26,25 @@ CHECKS = {
             "every byte ever delivered for request i must be a prefix of payload(i); unclean sockets answer with poisoned payloads.",
             "simnet stand-in for sockets and for the readiness poll; alphabet as listed in mc/checks/c03.py.",
             "DESIGN.md §3 C03"),
+    "C07": ("exploration",
+            "exhaustive enumeration of the TLS settings lattice on real handshakes (socketpair + throw-away CAs), three-valued reference from the settings",
+            "Every point of cert_reqs x trust x assert_hostname x assert_fingerprint x server_hostname x ssl_context x issuer x certificate/host shape x route x backend runs a real TLS handshake "
+            "against a recording server; a reference computed from the settings alone says which checks are demanded and whether the presented certificate passes them; "
+            "a failed demanded check must leave zero application bytes at the server, raise SSLError and close the socket; unvalidated deliveries must warn exactly once and never report verified.",
+            "OpenSSL / pyOpenSSL trusted for the crypto; socketpair transport; reference rules listed in the evidence assumptions; 'either' for CERT_OPTIONAL and for SSLContext/CERT_NONE configuration conflicts.",
+            "DESIGN.md §3 C07"),
+    "C10": ("exploration",
+            "exhaustive enumeration of hostile strings per request field across entry points, strict independent wire parser (simnet)",
+            "All strings up to the length bound over a hostile alphabet plus injection templates, for method, URL (by position), header name, header value, name/value pairs, automatic-header combinations and body kinds, "
+            "through HTTPConnection.request, HTTPConnectionPool.urlopen, PoolManager.request and HTTP2Connection.putheader; either nothing is written or the bytes parse as exactly the one requested request.",
+            "simnet; two independent parsers (mc/httpparse.py and the check's own); http.client laxities listed in DESIGN §3 C10 are counted, not flagged.",
+            "DESIGN.md §3 C10"),
+    "C18": ("exploration",
+            "exhaustive enumeration of request-context pairs derived from the constructors' signatures at run time",
+            "The keyword universe is read from the current tree's constructor signatures and PoolKey; every ordered pair of call symbols differing in one keyword (and every location spelling pair) is executed on a fresh PoolManager; "
+            "a reference identity decides same/distinct/rejected; values are read back from the pool and a freshly built connection; manager defaults are snapshotted after every call.",
+            "no sockets; unknown keyword => harness error (exit 2) so a new keyword cannot pass silently.",
+            "DESIGN.md §3 C18"),
     "C12": ("model_checking",
             "exhaustive enumeration of read-call sequences x response shapes on real HTTPResponse objects (simnet), payload-equality oracle",
             "For every response spec (payload size x content coding x framing x socket segmentation x decode_content) every sequence of read calls up to the length bound "
